@@ -16,14 +16,21 @@
 //   S <type> <msg16> <cat8> <file8> <func8> <line> <n> {<key16> <val16>}               SentryFormatter
 //   C <rules16> <type> <cat8>                                        CategoryFilter(rules).filter
 //   R <menu index> <msg16>                                           RegExpFilter(menu[i]).filter
+//   G <n> {<type> <cat8> <msg16>}                                    the formatter chain that the one-line
+//        configure(pipeline, path, ...) builds: PrettyFormatter(colour) -> console sink -> FunctionFormatter
+//        that strips the colour codes again -> file sink; one fresh pipeline, n messages through
+//        Pipeline::process; answer: n x "<time16> <text16 that reached the file sink>"
 //   M                                                                answer: size of the regexp menu
 #ifdef VERIF_HEADER_ONLY
 #include "qtlogger.h"
 #else
 #include "qtlogger/qtlogger.h"
 #endif
+#include <QDir>
+#include <QFile>
 #include <chrono>
 #include <cstdio>
+#include <unistd.h>
 #include <iostream>
 #include <sstream>
 #include <string>
@@ -138,6 +145,25 @@ int main()
                 QString o = pf.format(lm);
                 if (i) out += ' ';
                 out += hex16(tm) + ' ' + hex16(o);
+            }
+        } else if (kind == "G") {
+            int n = 0;
+            is >> n;
+            static int seq = 0;
+            const QString path = QDir::tempPath() + QStringLiteral("/h_safety_%1_%2.log").arg(qlonglong(getpid())).arg(seq++);
+            Pipeline pipeline;
+            configure(&pipeline, path, 0, 0, RotatingFileSink::Option::None, false);
+            QFile::remove(path);   // the file sink keeps the (now anonymous) file open: nothing is left behind, even after a kill
+            for (int i = 0; i < n; i++) {
+                int t; std::string cat, msg;
+                is >> t >> cat >> msg;
+                CStr c(cat);
+                QMessageLogContext ctx("f", 1, "fn", c.ptr());
+                LogMessage lm(QtMsgType(t), ctx, un16(msg));
+                QString tm = lm.time().toString(QStringLiteral("dd.MM.yyyy hh:mm:ss"));
+                pipeline.process(lm);
+                if (i) out += ' ';
+                out += hex16(tm) + ' ' + hex16(lm.formattedMessage());
             }
         } else if (kind == "J") {
             int compact = 0;
